@@ -564,13 +564,20 @@ def run_pwfile_shard(spec):
                 tasks = [asyncio.create_task(login(u, pw, f"10.9.{j}.7")) for j, (u, pw, kind) in enumerate(attempts)]
                 res = await asyncio.gather(*tasks)
                 # and once more, one at a time, after everything settled
-                res2 = [await login(u, pw, f"10.8.{j}.7") for j, (u, pw, kind) in enumerate(attempts)]
+                res2 = []
+                for j, (u, pw, kind) in enumerate(attempts):
+                    # (the throttle is another clause of the property: it must not mask the password verdict here)
+                    T.BAD_USER_AUTHS.clear()
+                    T.BAD_IP_AUTHS.clear()
+                    res2.append(await login(u, pw, f"10.8.{j}.7"))
                 n = 0
                 for phase, rr in (("concurrent", res), ("afterwards", res2)):
                     for (u, pw, kind), (ok, conn, out) in zip(attempts, rr):
                         n += 1
                         if kind == "old" and (ok or conn):
                             problems.append(("replaced-password-still-accepted", f"{phase}: LOGIN {u} with the password the file no longer has (change: {change}) -> {out!r}"))
+                        if not ok and "Too many authentication failures" in out:
+                            continue  # throttled (the old-password attempts of this very scenario count as failures)
                         if kind == "new" and change == "password" and not ok:
                             problems.append(("new-password-refused", f"{phase}: LOGIN {u} with the new password -> {out!r}"))
                         if kind == "other" and change != "unreadable" and not ok:
